@@ -29,9 +29,10 @@ man = {
               "baseline_off_cmd": "cd /repo && /venv/bin/python -m pytest -ra -q -p no:cacheprovider --timeout=900 --continue-on-collection-errors",
               "source_commits": M.HOOK_COMMITS, "add_only": True},
     "engines": [{"name": "vc", "path": "vc/", "serves_properties": sorted(M.CLAIMS),
-                 "kind_free_text": "verification-condition generator over the real Python source (ast) and the clang AST of c_rain.c; "
-                                   "back ends: z3/cvc5 (SMT, array-property instantiation), sympy (algebraic identities), "
-                                   "matrix-word normaliser, relational/term-level equality"}],
+                 "kind_free_text": "verification-condition generator over the real Python source (ast) and the clang AST of c_rain.c; real functions executed on "
+                                   "symbolic values (sympy scalars, exact power series, z3-backed values with all-path exploration, symbolic decimal strings "
+                                   "interpreted from the re-parsed AST); back ends: z3/cvc5, sympy normal forms, exact rational arithmetic; relational/term-level "
+                                   "equality; bounded stand-ins labelled as such"}],
     "checks": checks,
     "not_applicable": na,
     "notes": M.NOTES,
